@@ -397,6 +397,10 @@ func SetTypeConverter(typ reflect.Type, conv TypeConverter) {
 	typeConverters[typ] = conv
 }
 
+// convertersInProgress holds the types whose converter getTypeConverter is
+// building right now. Guarded by goTypeMutex.
+var convertersInProgress = map[reflect.Type]bool{}
+
 // getTypeConverter returns a TypeConverter for the given Go type.
 // The caller must hold the goTypeMutex lock.
 func getTypeConverter(typ reflect.Type) (TypeConverter, error) {
@@ -413,6 +417,18 @@ func getTypeConverter(typ reflect.Type) (TypeConverter, error) {
 	verifAccess(&typeConverters, "typeConverters", false)
 	if conv, ok := typeConverters[typ]; ok {
 		return conv, nil
+	}
+	// A container type that contains itself, e.g. `type Tree []Tree`, has no
+	// converter: building one would build the converter of its element type
+	// first, which is the type itself, without end (a fatal stack overflow).
+	// Struct types that refer to themselves are fine, the Go type registry
+	// hands out the type under construction.
+	if kind != reflect.Struct {
+		if convertersInProgress[typ] {
+			return nil, errz.TypeErrorf("type error: unsupported recursive type %s", typ)
+		}
+		convertersInProgress[typ] = true
+		defer delete(convertersInProgress, typ)
 	}
 	var err error
 	var converter TypeConverter
